@@ -2,6 +2,8 @@
 
 use crate::groups::Groups;
 
+pub mod c05;
+pub mod c05_loop;
 pub mod c09;
 pub mod c10;
 pub mod c11;
@@ -23,7 +25,7 @@ pub struct PropDef {
 }
 
 pub fn all() -> &'static [PropDef] {
-    &[c09::DEF, c10::DEF, c11::DEF, c18::DEF]
+    &[c05::DEF, c09::DEF, c10::DEF, c11::DEF, c18::DEF]
 }
 
 /// Serde helper: u128 as decimal string (serde_json cannot read back large
